@@ -259,7 +259,7 @@ def random_tree_grid(rng, d, max_n=330, big=False):
             return stripes, levels
 
 
-def make_oracle(seed, steps, hook=None):
+def make_oracle(seed, steps, hook=None, fault_round=None):
     """adversarial, value-independent refinement oracle through the public ErrorCalculator interface: the error of an interval is a
     hash of (seed, round, dimension, start, end); after `steps` refinement rounds every error is 0, so the driver stops (tol = 0).
     hook(round, combi_object) is called once per evaluation round before the errors are read."""
@@ -271,8 +271,14 @@ def make_oracle(seed, steps, hook=None):
             self.is_global = True
             self.round = 0
             self.steps = steps          # may be raised later (continue_adaptive_refinement)
+            self.faulted = False
 
         def calc_global_error(self, data, grid_scheme):
+            if fault_round is not None and self.round + 1 == fault_round and not self.faulted:
+                # fault injection: the user's global estimator fails once, in this evaluation round (before anything of the round is recorded)
+                self.faulted = True
+                from bounded._drivers_common import ModelFault
+                raise ModelFault("global error estimator failed in evaluation round %d" % fault_round)
             self.round += 1
             if hook is not None:
                 hook(self.round, grid_scheme)
@@ -302,17 +308,22 @@ def new_de(d, data, labels, lam=0.0, masslumping=False, numeric=False, reuse=Fal
                              numeric_calculation=numeric, log_level=log_levels.ERROR, print_level=print_levels.ERROR)
 
 
-def run_driver(op, d, lmin, lmax, steps, margin, rebalancing, oracle_seed, hook=None):
-    """real dimension-wise run; returns the combi object"""
+def run_driver(op, d, lmin, lmax, steps, margin, rebalancing, oracle_seed, hook=None, fault_round=None):
+    """real dimension-wise run; returns the combi object.  With fault_round the user's global estimator fails once in that evaluation round; the caller
+    (here) catches the exception and resumes the SAME objects with continue_adaptive_refinement, as a user would."""
     import numpy as np
     from sparseSpACE.spatiallyAdaptiveSingleDimension2 import SpatiallyAdaptiveSingleDimensions2
     from sparseSpACE.Utils import log_levels, print_levels
     a, b = np.zeros(d), np.ones(d)
     sa = SpatiallyAdaptiveSingleDimensions2(a, b, operation=op, margin=margin, rebalancing=rebalancing,
                                             log_level=log_levels.ERROR, print_level=print_levels.ERROR)
-    oracle = make_oracle(oracle_seed, steps, hook)
+    oracle = make_oracle(oracle_seed, steps, hook, fault_round)
+    from bounded._drivers_common import ModelFault
     with quiet():
-        sa.performSpatiallyAdaptiv(lmin, lmax, oracle, 0.0, print_output=False)
+        try:
+            sa.performSpatiallyAdaptiv(lmin, lmax, oracle, 0.0, print_output=False)
+        except ModelFault:
+            sa.continue_adaptive_refinement(tol=0.0)
     return sa
 
 
